@@ -3,6 +3,7 @@ Each scenario is run on BOTH halves; the two traces are returned one after the o
 usage: client.py SCENARIOS.json TRACES.json"""
 import asyncio
 import json
+import zlib
 import logging
 import sys
 
@@ -19,12 +20,19 @@ def a_id(x):
     return RID.get((type(x).__name__, x), 'other')
 
 
+_BOTH = [0]     # how an element that carries BOTH members is written (by scenario content): both filled / error null / result null
+
+
 def c_elem(e):
     d = {'jsonrpc': '2.0', 'id': IDS[e['id']]}
     if e['body'] in ('result', 'both'):
         d['result'] = 'val_' + e['id']
     if e['body'] in ('error', 'both'):
         d['error'] = {'code': 3000, 'message': 'err_' + e['id']}
+    if e['body'] == 'both' and _BOTH[0] == 1:
+        d['error'] = None           # present but null: still both members
+    if e['body'] == 'both' and _BOTH[0] == 2:
+        d['result'] = None
     return d
 
 
@@ -52,8 +60,10 @@ def build(scn, how=0):
             b.append(r)
         return b
     if how == 2:
-        b = pjrpc.BatchRequest(*reqs[:1])
-        b.extend(reqs[1:])
+        # the first one or the first two (by content), then the rest
+        k = 1 + (zlib.crc32(json.dumps(scn, sort_keys=True).encode()) // 12) % 2
+        b = pjrpc.BatchRequest(*reqs[:k])
+        b.extend(reqs[k:])
         return b
     if how == 3:
         return pjrpc.BatchRequest(*reqs, strict=False)
@@ -90,6 +100,9 @@ def run_one(scn, kind, loop, how=0, warm=False):
     """warm: the batch wrapper object (client.batch) has already made another round trip before this one
     how 4 / 5: the batch REQUEST object itself was sent before with its first element only, then it grew by the rest
     (4: extend, 5: append one by one) and is sent again"""
+    _BOTH[0] = (zlib.crc32(json.dumps(scn, sort_keys=True).encode()) // 24) % 3
+    if scn['mode'] == 'batch' and scn['doc']['k'] == 'object':
+        _BOTH[0] = 0        # a batch answered by ONE object with both members filled counts as a batch-level error (Client.tla); the null forms are not judged there
     text = render(scn['doc'])
     ev = []
     replies = [text]
